@@ -12,6 +12,8 @@ class TimePattern(i_lib.TimePattern):
     def __init__(self, hours, minutes):
         self._repr = 'TimePattern("{}", "{}")'.format(hours, minutes)
         self._hour_set, self._minute_set = set(), set()
+        # Other patterns merged in by union(): (hour set, minute set) pairs.
+        self._alternatives = []
         if hours and minutes:
             self._init_hour_set(hours)
             self._init_minute_set(minutes)
@@ -63,12 +65,32 @@ class TimePattern(i_lib.TimePattern):
         int_minutes = int(minutes)
         return 0 <= int_minutes < 60
 
+    def copy(self):
+        the_copy = TimePattern(None, None)
+        the_copy._repr = self._repr
+        the_copy._hour_set = self._hour_set.copy()
+        the_copy._minute_set = self._minute_set.copy()
+        the_copy._alternatives = [
+            (hours.copy(), minutes.copy())
+            for hours, minutes in self._alternatives]
+        return the_copy
+
     def union(self, other):
-        self._hour_set.update(other._hour_set)
-        self._minute_set.update(other._minute_set)
+        # Matches whenever either pattern matches. The hours of one pattern
+        # must not get combined with the minutes of the other.
+        self._alternatives.append(
+            (other._hour_set.copy(), other._minute_set.copy()))
+        self._alternatives.extend(
+            (hours.copy(), minutes.copy())
+            for hours, minutes in other._alternatives)
 
     def match(self, hours, minutes):
-        return hours in self._hour_set and minutes in self._minute_set
+        if hours in self._hour_set and minutes in self._minute_set:
+            return True
+        for hour_set, minute_set in self._alternatives:
+            if hours in hour_set and minutes in minute_set:
+                return True
+        return False
 
     def _init_hour_set(self, pattern):
         if pattern == '*':
